@@ -35,12 +35,34 @@ import (
 	"go.uber.org/zap"
 )
 
-// in-memory libdns provider: a multiset of records per zone; honours contexts
+// in-memory libdns provider: a multiset of records per zone; honours contexts.
+// Like real providers it may NORMALISE what it is asked to create — a TTL below its minimum is
+// raised to the minimum (minTTL; an unset TTL likewise becomes the provider's minimum) — and it reports
+// the record AS CREATED (optionally as the typed libdns.TXT the libdns contract recommends).
+// DeleteRecords follows the libdns contract: name, type, TTL and data must all match the record
+// in the zone, where an empty type, a zero TTL or empty data in the request match anything.
 type c16Provider struct {
 	mu         sync.Mutex
 	recs       []libdns.RR // zone-relative names; single zone
 	failAppend bool
 	failDelete bool
+	minTTL     time.Duration // 0: TTLs are stored as requested
+	typed      bool          // report created TXT records as libdns.TXT
+}
+
+// the provider's view of a record it is asked to create
+func (p *c16Provider) normalise(rr libdns.RR) libdns.RR {
+	if p.minTTL > 0 && rr.TTL < p.minTTL {
+		rr.TTL = p.minTTL
+	}
+	return rr
+}
+
+func c16Matches(have, want libdns.RR) bool {
+	return have.Name == want.Name &&
+		(want.Type == "" || have.Type == want.Type) &&
+		(want.TTL == 0 || have.TTL == want.TTL) &&
+		(want.Data == "" || have.Data == want.Data)
 }
 
 func (p *c16Provider) AppendRecords(ctx context.Context, zone string, recs []libdns.Record) ([]libdns.Record, error) {
@@ -55,8 +77,13 @@ func (p *c16Provider) AppendRecords(ctx context.Context, zone string, recs []lib
 	}
 	var out []libdns.Record
 	for _, r := range recs {
-		p.recs = append(p.recs, r.RR())
-		out = append(out, r.RR())
+		rr := p.normalise(r.RR())
+		p.recs = append(p.recs, rr)
+		if p.typed && rr.Type == "TXT" {
+			out = append(out, libdns.TXT{Name: rr.Name, TTL: rr.TTL, Text: rr.Data})
+		} else {
+			out = append(out, rr)
+		}
 	}
 	return out, nil
 }
@@ -75,7 +102,7 @@ func (p *c16Provider) DeleteRecords(ctx context.Context, zone string, recs []lib
 	for _, r := range recs {
 		rr := r.RR()
 		for i, have := range p.recs {
-			if have.Name == rr.Name && have.Type == rr.Type && have.Data == rr.Data {
+			if c16Matches(have, rr) { // (one record per request: matters for identical duplicates only)
 				p.recs = append(p.recs[:i], p.recs[i+1:]...)
 				out = append(out, have)
 				break
@@ -373,6 +400,20 @@ func TestVerifC16(t *testing.T) {
 			dnsSolver.OverrideDomain = "_acme-challenge." + idents[firstDNSKey+2]
 			o.Stat("histories_with_challenge_delegation", 1)
 		}
+		// record TTL configured on the DNSManager × the provider's TTL policy: the provider may raise
+		// the TTL to its minimum and reports the record as created; deletion is by exact match
+		ttlCfg := []time.Duration{0, 0, 30 * time.Second, 2 * time.Minute, time.Hour}[rng.Intn(5)]
+		ttlMin := []time.Duration{0, 0, time.Minute, 5 * time.Minute}[rng.Intn(4)]
+		dnsSolver.TTL = ttlCfg
+		prov.mu.Lock()
+		prov.minTTL, prov.typed = ttlMin, rng.Intn(2) == 0
+		prov.mu.Unlock()
+		if ttlCfg != 0 {
+			o.Stat("histories_with_configured_record_ttl", 1)
+		}
+		if ttlMin > ttlCfg {
+			o.Stat("histories_with_ttl_adjusted_by_provider", 1)
+		}
 		nch := 1 + rng.Intn(7)
 		var chals []*c16Chal
 		var lastDNS *c16Chal
@@ -469,7 +510,7 @@ func TestVerifC16(t *testing.T) {
 		prov.recs = nil
 		var p0 []string
 		if rng.Intn(2) == 0 {
-			prov.recs = append(prov.recs, libdns.RR{Name: "_acme-challenge.d0", Type: "TXT", Data: "preexisting-1"}, libdns.RR{Name: "_acme-challenge.d1", Type: "TXT", Data: "preexisting-2"})
+			prov.recs = append(prov.recs, libdns.RR{Name: "_acme-challenge.d0", Type: "TXT", TTL: 5 * time.Minute, Data: "preexisting-1"}, libdns.RR{Name: "_acme-challenge.d1", Type: "TXT", TTL: 5 * time.Minute, Data: "preexisting-2"})
 			p0 = []string{"0.1", "1.2"}
 		}
 		prov.mu.Unlock()
@@ -623,7 +664,7 @@ func TestVerifC16(t *testing.T) {
 				}
 			}
 		}
-		o.Line("trace %s %s => %s", c15JoinOr(p0), strings.Join(evTok, " "), strings.Join(obs, " ; "))
+		o.Line("trace %s ttl=%d/%d/%s %s => %s", c15JoinOr(p0), ttlCfg/time.Second, ttlMin/time.Second, c16b(prov.typed), strings.Join(evTok, " "), strings.Join(obs, " ; "))
 		o.Stat("traces_validated", 1)
 		o.Stat("events_checked", len(plan))
 
@@ -662,8 +703,10 @@ func TestVerifC16(t *testing.T) {
 	}
 	for r := 0; r < rounds; r++ {
 		freshPorts()
+		dnsSolver.TTL = []time.Duration{0, 30 * time.Second, 2 * time.Minute}[rng.Intn(3)]
 		prov.mu.Lock()
 		prov.recs = nil
+		prov.minTTL, prov.typed = []time.Duration{0, time.Minute}[rng.Intn(2)], rng.Intn(2) == 0
 		prov.mu.Unlock()
 		var cs []*c16Chal
 		n := 2 + rng.Intn(10)
@@ -710,7 +753,7 @@ func TestVerifC16(t *testing.T) {
 		np := len(prov.recs)
 		prov.mu.Unlock()
 		if !strings.HasPrefix(mid, "A=0:"+wantH+",2:"+wantA+" ") || np != nd {
-			o.Mon("C16 concurrent-present-state", map[string]any{"n": n, "observed": mid, "provider": np})
+			o.Mon("C16 concurrent-present-state", map[string]any{"n": n, "observed": mid, "provider": np, "ttl": dnsSolver.TTL.String(), "provider_min_ttl": prov.minTTL.String()})
 		}
 		for i, c := range cs {
 			wg.Add(1)
@@ -723,7 +766,7 @@ func TestVerifC16(t *testing.T) {
 		wg.Wait()
 		end := observe([]int{0, 2})
 		if end != "A=0:x:0,2:x:0 T=~ M=~ R=~ D=~" || canConnect(0) || canConnect(2) {
-			o.Mon("C16 concurrent-leftover", map[string]any{"n": n, "observed": end})
+			o.Mon("C16 concurrent-leftover", map[string]any{"n": n, "observed": end, "ttl": dnsSolver.TTL.String(), "provider_min_ttl": prov.minTTL.String()})
 		}
 		o.Stat("concurrent_rounds_checked", 1)
 	}
